@@ -117,50 +117,65 @@ Definition final_matches (st : spec) (keys : list (list Z * bool)) (entries : li
 
 (* depth-first search over the interleavings of the threads (program order kept), with the
    per-step choice "skip" for skippable expiry steps; fuel = total number of steps + 1.  At every level the thread
-   the hint names is tried first, then all the others: complete whatever the hint says. *)
+   the hint names is tried first, then all the others: complete whatever the hint says
+   (Proofs/SearchP.v: search = true <-> an interleaving exists, for every hint). *)
+Definition all_done (threads : list (list cstep * tlocal)) : bool :=
+  forallb (fun t => match t.1 with [] => true | _ => false end) threads.
+Definition skippable (k : cstep) : bool := match k with KGcOne _ _ _ true => true | _ => false end.
+
+Section Level.
+  (* rec = the search one level down *)
+  Variable rec : spec -> list (list cstep * tlocal) -> bool.
+  Variables (clock : Z) (st : spec).
+
+  Definition try_step (before : list (list cstep * tlocal)) (k : cstep) (more : list cstep) (loc : tlocal)
+             (after : list (list cstep * tlocal)) (skip : bool) : bool :=
+    match do_step clock st loc k skip with
+    | Some (st', loc') => rec st' (before ++ (more, loc') :: after)
+    | None => false
+    end.
+  (* `if` and not `||`: vm_compute evaluates both arguments of orb *)
+  Definition run_at (before : list (list cstep * tlocal)) (steps : list cstep) (loc : tlocal) (after : list (list cstep * tlocal)) : bool :=
+    match steps with
+    | [] => false
+    | k :: more =>
+      if try_step before k more loc after false then true
+      else if skippable k then try_step before k more loc after true else false
+    end.
+  Fixpoint pick (hinted : option nat) (i : nat) (before rest : list (list cstep * tlocal)) : bool :=
+    match rest with
+    | [] => false
+    | (steps, loc) :: after =>
+      if (if match hinted with Some h => Nat.eqb h i | None => false end then false else run_at before steps loc after)
+      then true else pick hinted (S i) (before ++ [(steps, loc)]) after
+    end.
+  Definition hinted_of (hint : list nat) (threads : list (list cstep * tlocal)) : option nat :=
+    match hint with
+    | h :: _ => match nth_error threads h with Some (_ :: _, _) => Some h | _ => None end
+    | [] => None
+    end.
+  Definition level (hint : list nat) (threads : list (list cstep * tlocal)) : bool :=
+    let hinted := hinted_of hint threads in
+    if match hinted with
+       | Some h => match nth_error threads h with
+                   | Some (steps, loc) => run_at (firstn h threads) steps loc (skipn (S h) threads)
+                   | None => false
+                   end
+       | None => false
+       end
+    then true else pick hinted O [] threads.
+End Level.
+
 Fixpoint search (fuel : nat) (clock : Z) (keys : list (list Z * bool)) (entries : list entry)
          (post : list sop) (entries2 : list entry) (hint : list nat)
          (st : spec) (threads : list (list cstep * tlocal)) : bool :=
   match fuel with
   | O => false
   | S f =>
-    if forallb (fun t => match t.1 with [] => true | _ => false end) threads
+    if all_done threads
     then final_matches st keys entries &&
          final_matches (fold_left (sapply spec_if) post (st, clock)).1 keys entries2
-    else
-      let hs := tl hint in
-      let run_at (before : list (list cstep * tlocal)) (steps : list cstep) (loc : tlocal) (after : list (list cstep * tlocal)) : bool :=
-        match steps with
-        | [] => false
-        | k :: more =>
-          let try skip :=
-            match do_step clock st loc k skip with
-            | Some (st', loc') => search f clock keys entries post entries2 hs st' (before ++ (more, loc') :: after)
-            | None => false
-            end in
-          (* `if` and not `||`: vm_compute evaluates both arguments of orb *)
-          if try false then true else match k with KGcOne _ _ _ true => try true | _ => false end
-        end in
-      let hinted : option nat :=
-        match hint with
-        | h :: _ => match nth_error threads h with Some (_ :: _, _) => Some h | _ => None end
-        | [] => None
-        end in
-      if match hinted with
-         | Some h => match nth_error threads h with
-                     | Some (steps, loc) => run_at (firstn h threads) steps loc (skipn (S h) threads)
-                     | None => false
-                     end
-         | None => false
-         end
-      then true else
-      (fix pick (i : nat) (before : list (list cstep * tlocal)) (rest : list (list cstep * tlocal)) : bool :=
-         match rest with
-         | [] => false
-         | (steps, loc) :: after =>
-           if (if match hinted with Some h => Nat.eqb h i | None => false end then false else run_at before steps loc after)
-           then true else pick (S i) (before ++ [(steps, loc)]) after
-         end) O [] threads
+    else level (search f clock keys entries post entries2 (tl hint)) clock st hint threads
   end.
 
 Definition step_key (k : cstep) : option (list Z * bool) :=
